@@ -50,7 +50,21 @@ where
     /// Panics if file with same path already exists
     ///
     /// [`FileName`]: struct.FileName.html
+    ///
+    /// The file is created and its header is written and synced by a task of its own, which runs to the end even
+    /// if the caller is dropped in the middle: what is left behind then is a complete empty blob, not a file without
+    /// a header that the next start has to set aside as corrupted.
     pub(crate) async fn open_new(
+        name: FileName,
+        iodriver: IoDriver,
+        config: BlobConfig,
+    ) -> Result<Self> {
+        tokio::spawn(Self::create_file_with_header(name, iodriver, config))
+            .await
+            .with_context(|| "blob creation task failed")?
+    }
+
+    async fn create_file_with_header(
         name: FileName,
         iodriver: IoDriver,
         config: BlobConfig,
